@@ -7,7 +7,11 @@ import stream_common as sc  # noqa: E402
 PROP = "C01"
 RULE = ("real ssnet.runonce on both tunnel ends over fake sockets, every micro-step replayed on the extracted model and the full "
         "state of both ends compared after every iteration; cases: bulk transfers in both directions on 1-4 flows, payload sizes around 0/1/2048/32768/65536/100000, random segmentation, latency control on and off; connections arriving on the IPv4 and the IPv6 listener through the real MultiListener.add_handler, dialled to several hosts/ports incl. foreign hosts on the client's own listening port (real helpers.islocal on kernel sockets) — oracles: every captured connection is tunnelled, and to the dialled destination; the tunnel ending under open flows (prefix oracles on everything delivered); a case is non-trivial when at least one flow was "
-        "accepted; distinct by case seed")
+        "accepted; distinct by case seed; plus (implementation only) the two ends of the ssh channel: the object the real ssh.connect returns "
+        "(no read-ahead), the real server.main in a child process on a socket pair (a connection's CONNECT+payload+EOF delivered to "
+        "descriptor 0 in one segment reaches the destination without further input, for --latency-buffer-size 100..32768), and one "
+        "connection end to end over two real OS pipes behind the real helpers.SocketRWShim at both ends (server.main on its win32 "
+        "branch) with short writes / short reads of the pipes, end of stream and end of the channel")
 TRUSTED_BASE = sc.STREAM_TB
 ASSUMPTIONS = sc.STREAM_ASSUMPTIONS
 PROFILES = ["bulk","bulk","close","latency","wrap","reuse","many","tunnel"]
@@ -74,12 +78,389 @@ def tunnel_reader_check(ctx):
                 pass
 
 
+class _ServerOs(object):
+    """the `os` module as sshuttle.server sees it from the first pipe-relay scenario on, for the rest of this process:
+    everything is the real module, except that _exit — which server.main's relay calls from a thread, a second after the
+    ssh channel ended, possibly long after the scenario is over — is recorded instead of ending the check's own process"""
+    exits = []
+
+    def __getattr__(self, k):
+        return getattr(os, k)
+
+    def _exit(self, code):
+        self.exits.append(code)
+
+
+class _ServerTime(object):
+    """... and its `time`: the one-second grace period before that _exit is cut short"""
+
+    def __getattr__(self, k):
+        import time
+        return getattr(time, k)
+
+    def sleep(self, s):
+        import time
+        time.sleep(min(s, 0.01))
+
+
+SHIM_SCENARIOS = [
+    # (how the pipe's write end takes bytes, how its read end hands them out, bytes the application writes, bytes the destination writes)
+    ("full", "full", 5000, 3000),
+    ("cap1000", "full", 70000, 40000),
+    ("short", "short", 70000, 70000),
+    ("once", "full", 40000, 1),
+    ("short", "cap7", 0, 1),
+    ("cap1000", "short", 1, 0),
+]
+SHIM_SCENARIOS_MORE = [("short", "short", 200000, 100000), ("one", "full", 3000, 3000), ("once", "short", 100000, 100000),
+                       ("cap1000", "cap7", 2049, 2047), ("full", "short", 65536, 65535), ("short", "full", 32769, 0)]
+
+
+def shim_tunnel_run(sce):
+    """One TCP connection end to end with the ssh channel made of two real (blocking) OS pipes behind the real
+    helpers.SocketRWShim at BOTH ends, as on the platform where the multiplexer cannot select() on the ssh process's
+    stdio: the client end builds the relay the way ssh.connect does (SocketRWShim(p.stdout, p.stdin) + makefiles()),
+    the server end is the real server.main seeing sys.platform == 'win32'.  Real ssnet.runonce, real client.onaccept_tcp,
+    real kernel sockets for the application and the destination.  The write end of each pipe takes fewer bytes than it
+    is offered (what a raw write may do), the read end returns fewer than asked.  Returns (failures, statistics)."""
+    import io
+    import random
+    import select
+    import socket
+    import time
+    import sshuttle.client as client
+    import sshuttle.helpers as helpers
+    import sshuttle.server as server
+    import sshuttle.ssnet as ssnet
+    wmode, rmode, n_up, n_down = sce["write_end"], sce["read_end"], sce["app_bytes"], sce["dst_bytes"]
+    rng = random.Random(sce.get("seed", 1))
+    fails, stats = [], {}
+
+    class PipeW(io.RawIOBase):
+        """raw, blocking write end of a pipe: one write(2) per call, which may take only part of what is offered"""
+
+        def __init__(self, fd):
+            io.RawIOBase.__init__(self)
+            self.fd, self.calls, self.short, self.total, self.wire, self.first_short = fd, 0, 0, 0, b"", None
+
+        def writable(self):
+            return True
+
+        def fileno(self):
+            return self.fd
+
+        def write(self, data):
+            data = bytes(data)
+            n = len(data)
+            self.calls += 1
+            if n > 1:
+                if wmode == "short":
+                    n = rng.randint(1, n - 1)
+                elif wmode == "cap1000":
+                    n = min(n, 1000)
+                elif wmode == "one":
+                    n = 1
+                elif wmode == "once" and self.calls == 3:
+                    n = n // 2
+            if n < len(data):
+                self.short += 1
+                if self.first_short is None:
+                    self.first_short = {"at_stream_offset": self.total, "offered": len(data), "taken": n}
+            n = os.write(self.fd, data[:n])
+            self.total += n
+            self.wire += data[:n]
+            return n
+
+    class PipeR(io.RawIOBase):
+        """raw, blocking read end: returns as soon as something is there, possibly less than asked; b'' at end of stream"""
+
+        def __init__(self, fd):
+            io.RawIOBase.__init__(self)
+            self.fd = fd
+
+        def readable(self):
+            return True
+
+        def fileno(self):
+            return self.fd
+
+        def read(self, n=-1):
+            if rmode == "short":
+                n = rng.randint(1, max(1, n))
+            elif rmode == "cap7":
+                n = min(n, 7)
+            return os.read(self.fd, n)
+
+        def readinto(self, b):
+            d = self.read(len(b))
+            b[:len(d)] = d
+            return len(d)
+
+    c2s_r, c2s_w = os.pipe()
+    s2c_r, s2c_w = os.pipe()
+    fds = {c2s_r, c2s_w, s2c_r, s2c_w}
+    p_stdin, p_stdout = PipeW(c2s_w), PipeR(s2c_r)           # the ssh child's pipes, as the client sees them
+    srv_in, srv_out = PipeR(c2s_r), PipeW(s2c_w)             # descriptors 0 and 1 of the server process
+    ended = []
+    socks = []
+
+    class SysShim(object):
+        platform = "win32"
+        stderr = sys.stderr
+        exc_info = staticmethod(sys.exc_info)
+        exit = staticmethod(sys.exit)
+        stdout = io.TextIOWrapper(io.BufferedWriter(srv_out), encoding="latin-1", newline="")
+
+    class SelShim(object):
+        error = OSError
+
+        @staticmethod
+        def select(r, w, x, timeout=None):
+            return select.select(r, w, x, 0.003 if timeout is None else timeout)
+
+    class Cap(BaseException):
+        pass
+    cap = {}
+
+    def capture(handlers, mux):
+        cap["h"], cap["m"] = handlers, mux
+        raise Cap()
+    if not isinstance(server.os, _ServerOs):
+        server.os, server.time = _ServerOs(), _ServerTime()
+    exits_before = len(_ServerOs.exits)
+    saved = (server.sys, server.io, ssnet.runonce, ssnet.select, helpers.log, ssnet.log, client.log, server.log,
+             helpers.logprefix, ssnet.LATENCY_BUFFER_SIZE)
+    old_err = sys.stderr
+    devnull = open(os.devnull, "w")
+    sys.stderr = devnull                                      # the relay threads report the closing of their pipes there
+    shim_c = None
+    try:
+        helpers.log = ssnet.log = client.log = server.log = lambda s: None
+        server.sys, ssnet.runonce = SysShim, capture
+        server.io = sc.io_shim(lambda fd: srv_in if fd == 0 else srv_out)
+        try:
+            server.main(True, 32768, False, None, False)
+        except Cap:
+            pass
+        finally:
+            server.sys, server.io, ssnet.runonce = saved[0], saved[1], saved[2]
+        s_mux, s_handlers = cap["m"], cap["h"]
+        ssnet.select = SelShim
+        # client end: what ssh.connect does on that platform, then what client._main does with the two files
+        shim_c = helpers.SocketRWShim(p_stdout, p_stdin, on_end=lambda: ended.append(("ssh would be terminated", None)))
+        rfile, wfile = shim_c.makefiles()
+        socks += [rfile, wfile]
+        head = b""
+        t_end = time.time() + 30
+        while len(head) < 14 and time.time() < t_end:
+            if select.select([rfile], [], [], 0.05)[0]:
+                d = rfile.read(14 - len(head))
+                if not d:
+                    break
+                head += d
+        if head != b"\0\0SSHUTTLE0001":
+            fails.append(("the server's synchronisation string did not cross the pipe relay intact", {"received": head.hex()}))
+            return fails, stats
+        c_mux = ssnet.Mux(rfile, wfile)
+        c_mux.got_routes = c_mux.got_host_list = lambda data: None     # (client._main installs its own two)
+        c_handlers = [c_mux]
+        lst = socket.socket(socket.AF_INET, socket.SOCK_STREAM)
+        dst_l = socket.socket(socket.AF_INET, socket.SOCK_STREAM)
+        socks += [lst, dst_l]
+        for l_ in (lst, dst_l):
+            l_.bind(("127.0.0.1", 0))
+            l_.listen(4)
+        dst_addr = dst_l.getsockname()
+
+        class Method(object):
+            @staticmethod
+            def get_tcp_dstip(sock):
+                return dst_addr
+        c_handlers.append(ssnet.Handler([lst], lambda sock: client.onaccept_tcp(lst, Method, c_mux, c_handlers)))
+        app = socket.socket(socket.AF_INET, socket.SOCK_STREAM)
+        socks.append(app)
+        app.connect(lst.getsockname())
+        app.setblocking(False)
+        dst_l.setblocking(False)
+        up, down = sc.pattern(5, 0, n_up), sc.pattern(6, 0, n_down)
+        ends = {"app": {"sock": app, "out": up, "sent": 0, "got": b"", "eof": False, "shut": False, "want": down},
+                "dst": {"sock": None, "out": down, "sent": 0, "got": b"", "eof": False, "shut": False, "want": up}}
+        died = None
+        last_progress, t_end = time.time(), time.time() + 90
+        while time.time() < t_end:
+            mark = (ends["app"]["sent"], ends["dst"]["sent"], len(ends["app"]["got"]), len(ends["dst"]["got"]),
+                    ends["app"]["eof"], ends["dst"]["eof"], p_stdin.total, srv_out.total)
+            if ends["dst"]["sock"] is None:
+                try:
+                    ends["dst"]["sock"], _ = dst_l.accept()
+                    ends["dst"]["sock"].setblocking(False)
+                    socks.append(ends["dst"]["sock"])
+                except (BlockingIOError, InterruptedError):
+                    pass
+            for name in ("app", "dst"):
+                e = ends[name]
+                s = e["sock"]
+                if s is None:
+                    continue
+                try:
+                    if e["sent"] < len(e["out"]):
+                        e["sent"] += s.send(e["out"][e["sent"]:e["sent"] + 65536])
+                    elif not e["shut"]:
+                        s.shutdown(socket.SHUT_WR)
+                        e["shut"] = True
+                except (BlockingIOError, InterruptedError):
+                    pass
+                except OSError as ex:
+                    fails.append(("an endpoint's socket was reset by the tunnel end although neither endpoint aborted",
+                                  {"endpoint": name, "error": str(ex)}))
+                    e["sent"], e["shut"] = len(e["out"]), True
+                if not e["eof"]:
+                    try:
+                        d = s.recv(1 << 16)
+                        if d:
+                            off = len(e["got"])
+                            e["got"] += d
+                            if e["want"][off:off + len(d)] != d and not e.get("bad"):
+                                e["bad"] = off + next((i for i in range(len(d)) if e["want"][off + i:off + i + 1] != d[i:i + 1]), 0)
+                        else:
+                            e["eof"] = True
+                    except (BlockingIOError, InterruptedError):
+                        pass
+                    except OSError as ex:
+                        e["eof"] = True
+                        e["reset"] = str(ex)
+            for side, hs, m in (("client", c_handlers, c_mux), ("server", s_handlers, s_mux)):
+                if died is None:
+                    try:
+                        ssnet.runonce(hs, m)
+                        m.check_fullness()              # latency control is on, as by default
+                    except Exception as ex:        # noqa
+                        died = (side, type(ex).__name__, str(ex)[:200])
+            if died:
+                break
+            if all(ends[k]["eof"] and ends[k]["shut"] for k in ends):
+                break
+            now = (ends["app"]["sent"], ends["dst"]["sent"], len(ends["app"]["got"]), len(ends["dst"]["got"]),
+                   ends["app"]["eof"], ends["dst"]["eof"], p_stdin.total, srv_out.total)
+            if now != mark:
+                last_progress = time.time()
+            elif time.time() - last_progress > 8:
+                break
+        a, d = ends["app"], ends["dst"]
+        stats = {"short_writes_client_pipe": p_stdin.short, "short_writes_server_pipe": srv_out.short,
+                 "bytes_through_client_pipe": p_stdin.total, "bytes_through_server_pipe": srv_out.total}
+        det = {"bytes_the_application_wrote": a["sent"], "bytes_the_destination_received": len(d["got"]),
+               "bytes_the_destination_wrote": d["sent"], "bytes_the_application_received": len(a["got"]),
+               "destination_saw_end_of_stream": d["eof"], "application_saw_end_of_stream": a["eof"]}
+        det.update(stats)
+        # what arrived in each pipe must be the frame stream its multiplexer produced (after the server's 14-byte string)
+        for name, pw, skip in (("client", p_stdin, 0), ("server", srv_out, 14)):
+            wire, pos = pw.wire[skip:], 0
+            while len(wire) - pos >= 8:
+                if wire[pos:pos + 2] != b"SS":
+                    fails.append(("the byte stream that reached the ssh pipe behind the %s's pipe relay is not the frame stream "
+                                  "its multiplexer wrote: after whole messages up to the offset given no message header follows "
+                                  "(the detail shows the first write of the pipe that took only part of what it was offered)" % name,
+                                  dict(det, bad_header_at_stream_offset=skip + pos, found=wire[pos:pos + 8].hex(),
+                                       first_short_write=pw.first_short)))
+                    break
+                pos += 8 + ((wire[pos + 6] << 8) | wire[pos + 7])
+        if died:
+            fails.append(("the %s's multiplexer died (%s) on the byte stream that came out of the pipe relay: bytes of the "
+                          "tunnel stream were lost or altered between the multiplexer and the ssh pipe" % (died[0], died[1]),
+                          dict(det, exception="%s: %s" % (died[1], died[2]))))
+        if "bad" in d:
+            fails.append(("bytes handed to the destination are not a prefix of what the application wrote (ssh channel behind "
+                          "the pipe relay)", dict(det, first_wrong_byte=d["bad"])))
+        if "bad" in a:
+            fails.append(("bytes handed back to the application are not a prefix of what the destination wrote (ssh channel "
+                          "behind the pipe relay)", dict(det, first_wrong_byte=a["bad"])))
+        if not fails and (d["got"] != up or a["got"] != down or not (a["eof"] and d["eof"])):
+            fails.append(("neither endpoint aborted, yet not every byte written before the writer closed was delivered (ssh "
+                          "channel behind the pipe relay)", det))
+        if not fails:
+            # end of the channel: the ssh process goes away (its stdout, our s2c pipe, stays open; its stdin is closed)
+            os.close(c2s_w)
+            fds.discard(c2s_w)
+            # the server notices: its multiplexer reads end-of-stream, or the relay's on_end ends the process
+            t_end = time.time() + 30
+            while s_mux.ok and len(_ServerOs.exits) == exits_before and time.time() < t_end:
+                try:
+                    ssnet.runonce(s_handlers, s_mux)
+                except Exception as ex:        # noqa
+                    fails.append(("the end of the ssh channel made the server's loop end through %s" % type(ex).__name__, det))
+                    break
+            if s_mux.ok and len(_ServerOs.exits) == exits_before and not fails:
+                fails.append(("the ssh channel was closed, yet neither did its end reach the server's multiplexer through the "
+                              "pipe relay nor did the relay end the server: the server keeps running", det))
+    finally:
+        (server.sys, server.io, ssnet.runonce, ssnet.select, helpers.log, ssnet.log, client.log, server.log,
+         helpers.logprefix, ssnet.LATENCY_BUFFER_SIZE) = saved
+        for f in socks:
+            try:
+                f.close()
+            except Exception:
+                pass
+        for sh in (shim_c, ):
+            try:
+                sh and sh._s2.close()
+            except Exception:
+                pass
+        try:
+            cap["m"].rfile.close()
+            cap["m"].wfile.close()
+        except Exception:
+            pass
+        for fd in fds:
+            try:
+                os.close(fd)
+            except OSError:
+                pass
+        import time as _t
+        _t.sleep(0.02)                                       # let the relay threads notice and finish
+        sys.stderr = old_err
+        devnull.close()
+    return fails, stats
+
+
+def shim_tunnel_check(ctx, only=None):
+    import sshuttle.helpers as helpers
+    if not hasattr(helpers, "SocketRWShim"):
+        return []
+    if not sc.machine_has("127.0.0.1", sc.AF4):
+        ctx.count("shim_tunnel_skipped_no_loopback")
+        return []
+    scen = [only] if only else [dict(zip(("write_end", "read_end", "app_bytes", "dst_bytes"), t), seed=ctx.rng.randrange(1 << 30))
+                                for t in SHIM_SCENARIOS + ([] if ctx.quick() else SHIM_SCENARIOS_MORE)]
+    found = []
+    for sce in scen:
+        fails, stats = shim_tunnel_run(sce)
+        ctx.case(("shim-tunnel", sce["write_end"], sce["read_end"], sce["app_bytes"], sce["dst_bytes"]), nontrivial=True,
+                 sample={"kind": "pipe-relay tunnel", "scenario": sce, "stats": stats})
+        ctx.count("shim_tunnel_write_end_%s" % sce["write_end"])
+        ctx.count("shim_tunnel_short_writes", stats.get("short_writes_client_pipe", 0) + stats.get("short_writes_server_pipe", 0))
+        for what, det in fails[:2]:
+            found.append(what)
+            ctx.violation(what, {"shim_tunnel": sce, "detail": det})
+    return found
+
+
 def correspondence(ctx):
+    import time
+    t0 = time.time()
     tunnel_reader_check(ctx)
+    sc.server_reader_check(ctx, PROP)
+    shim_tunnel_check(ctx)
+    ctx.extra["tunnel_endpoint_checks_wall_s"] = round(time.time() - t0, 2)
     sc.stream_check(ctx, PROP, PROFILES, 120, 2500)
 
 
 def replay(ctx, rp):
+    st = rp.get("replay", {}).get("shim_tunnel")
+    if st:
+        found = shim_tunnel_check(ctx, only=st)
+        print("pipe-relay tunnel:", found)
+        return bool(found)
     return sc.stream_replay(ctx, rp, PROP)
 
 
